@@ -41,6 +41,10 @@ CHECKS = {
    text="Emission timestamps on the virtual clock (tolerance zero) are compared with the timer law from the first transmission of each endpoint's current flight, through 16 virtual minutes of silence, after a cut-heal-cut sequence that exercises the reset rule, and under an adversary that re-delivers already-received flights with fresh record numbers or garbage; plus never-on-timer rules for cookie requests and finished DTLS 1.2 endpoints and a linear storm bound.",
    note="The exact law is only asserted where the statement conditions it: nothing (or, for DTLS 1.2, only stale input) delivered since the flight's first transmission. DTLS 1.3 under stale input is held to the storm bound only (it legitimately answers retransmissions at once).",
    technique="deterministic simulation: virtual-clock timing oracle under partitions and stale-flight injection"),
+ "C14": dict(level="exploration", design="§5 C14",
+   text="Seeded histories of 2-4 connections over two simulated session stores whose every Get/Set/Del is a recorded decision (error, lost write, stale, swapped, flipped, truncated), with loss on the abbreviated flights, lost server stores and provoked fatal alerts. The oracle compares what the two stores actually handed out with what the endpoints report and what the wire shows (abbreviated or full handshake, hello randoms, CIDs), and checks store contents after fatal alerts.",
+   note="Secrets differing only in trailing zero bytes are treated as equal (HMAC pads keys with zeros, so TLS cannot tell them apart). A store that returns a session it was told to delete is not held against the endpoint.",
+   technique="deterministic simulation: seeded connection histories over a fault-injecting session store"),
 }
 
 NOT_YET = {}
